@@ -93,7 +93,7 @@ where
 
 pub fn run(args: &Args) {
     let mut report = Report::new(args, "exploration");
-    let max_len = if args.tier == mck::Tier::Thorough { 1600 } else { 130 };
+    let max_len = if args.tier == mck::Tier::Thorough { 5000 } else { 130 };
     type B64 = f64::BaseElement;
     type B62 = f62::BaseElement;
     let mut s = Sweep::new();
